@@ -306,6 +306,9 @@ M("c03.stack.sha3.padding", "C03", "lib/Crypto/Hash/SHA3_384.py", "        self.
 M("c03.stack.sha3.copy.swapped", "C03", "lib/Crypto/Hash/SHA3_256.py", "        result = _raw_keccak_lib.keccak_copy(self._state.get(),\n                                             clone._state.get())", "        result = _raw_keccak_lib.keccak_copy(clone._state.get(),\n                                             self._state.get())", "K-pw|sponge.stack.copy")
 M("c03.stack.blake2b.truncate", "C03", "lib/Crypto/Hash/BLAKE2b.py", "        return get_raw_buffer(bfr)[:self.digest_size]", "        return get_raw_buffer(bfr)[:64]", "K-pw|hash.stack.BLAKE2b")
 M("c03.stack.sha512.new.truncate", "C03", "lib/Crypto/Hash/SHA512.py", "return SHA512Hash(data, self._truncate)", "return SHA512Hash(data, None)", "K")
+ECCPY = "lib/Crypto/PublicKey/ECC.py"
+M("c08.ecc.rt.sec1.compress.parity", "C08", ECCPY, "            if self.pointQ.y.is_odd():\n                first_byte = b'\\x03'\n            else:\n                first_byte = b'\\x02'", "            if self.pointQ.y.is_odd():\n                first_byte = b'\\x02'\n            else:\n                first_byte = b'\\x03'", "K")
+M("c08.ecc.rt.rfc5915.scalar.len", "C08", ECCPY, "DerOctetString(self.d.to_bytes(modulus_bytes)),", "DerOctetString(self.d.to_bytes()),", "K")
 RSAPY = "lib/Crypto/PublicKey/RSA.py"
 M("c07.toy.rsa.crt.h", "C07", RSAPY, "h = ((m2 - m1) * self._u) % self._q", "h = ((m1 - m2) * self._u) % self._q", "K-pw|rsa.toy.decrypt")
 M("c07.toy.rsa.crt.abs", "C07", RSAPY, "h = ((m2 - m1) * self._u) % self._q", "h = (abs(m2 - m1) * self._u) % self._q", "K-pw|rsa.toy.decrypt")
